@@ -41,6 +41,9 @@ pub struct ConcDesc {
     pub callers: Vec<Vec<ConcOp>>,
     /// background compile loops: (multiplier q, argument x) per iteration
     pub compilers: Vec<Vec<(u64, u64)>>,
+    /// scenario "stringbuf": per thread (push?, token number)
+    #[serde(default)]
+    pub sb_ops: Vec<Vec<(bool, u64)>>,
     #[serde(default)]
     pub schedule: Option<Vec<u8>>,
 }
@@ -335,6 +338,42 @@ fn report_text(e: &roto::RotoReport) -> String {
 
 // ------------------------------------------------------------------ generation
 
+/// Scenario "stringbuf": a `StringBuf` shared through a script constant, appended to and read
+/// from several threads; the recorded history must be linearizable w.r.t. one shared string.
+pub fn generate_stringbuf(run_seed: u64, thorough: bool) -> ConcDesc {
+    let mut r = Rng::new(rng::derive(run_seed, &[rng::label("workload")]));
+    let n = 2 + r.below(2) as usize;
+    let mut tok = 0u64;
+    let mut sb_ops = Vec::new();
+    for _ in 0..n {
+        let k = 2 + r.below(if thorough { 4 } else { 3 }) as usize;
+        let mut ops = Vec::new();
+        for _ in 0..k {
+            if r.chance(1, 2) {
+                tok += 1;
+                ops.push((true, tok));
+            } else {
+                ops.push((false, 0));
+            }
+        }
+        sb_ops.push(ops);
+    }
+    let mut sr = Rng::new(rng::derive(run_seed, &[rng::label("strategy")]));
+    let strategy = crate::scen_list::pick_strategy(&mut sr, 60);
+    ConcDesc {
+        property: "C12".into(),
+        scenario: "stringbuf".into(),
+        run_seed,
+        strategy: strategy.name(),
+        sched_seed: rng::derive(run_seed, &[rng::label("schedule")]),
+        params: vec![],
+        callers: vec![],
+        compilers: vec![],
+        sb_ops,
+        schedule: None,
+    }
+}
+
 pub fn generate(run_seed: u64, thorough: bool, cold_race: bool) -> ConcDesc {
     let mut r = Rng::new(rng::derive(run_seed, &[rng::label("workload")]));
     let params: Vec<u64> = vec![2 + r.below(9), 3 + r.below(40), 20 + r.below(400), 1 + r.below(99), r.below(1000), r.below(50)];
@@ -390,6 +429,7 @@ pub fn generate(run_seed: u64, thorough: bool, cold_race: bool) -> ConcDesc {
         params,
         callers,
         compilers,
+        sb_ops: vec![],
         schedule: None,
     }
 }
@@ -557,7 +597,91 @@ pub fn execute(d: &ConcDesc, keep_trace: bool) -> RunResult {
     let mut n_calls = 0u64;
     let mut n_solo = 0u64;
 
-    if d.scenario == "cold-race" {
+    if d.scenario == "stringbuf" {
+        use crate::model::{Event, Heap, LOp, MVal, Obs};
+        let mut keep: Option<(Sendable<Runtime<NoCtx>>, Sendable<Package<NoCtx>>)> = None;
+        let mut fpush = None;
+        let mut fread = None;
+        {
+            let _rg = alloc::ModeGuard::new(alloc::MODE_RUN);
+            let rt = Runtime::new();
+            let src = "const SB: StringBuf = StringBuf.new();\nfn sb_push(t: String) { SB.push_string(t); }\nfn sb_read() -> String { SB.as_string() }\n";
+            let pkg = {
+                let _cg = alloc::ModeGuard::new(alloc::MODE_COMPILE);
+                FileTree::test_file("sb", src, 0).compile(&rt)
+            };
+            match pkg {
+                Ok(mut pkg) => {
+                    match (pkg.get_function::<fn(RotoString)>("sb_push"), pkg.get_function::<fn() -> RotoString>("sb_read")) {
+                        (Ok(a), Ok(b)) => {
+                            fpush = Some(Arc::new(Sendable(a)));
+                            fread = Some(Arc::new(Sendable(b)));
+                        }
+                        (a, b) => viol::record("get-function-failed", format!("stringbuf helpers: {:?} {:?}", a.err().map(|e| e.to_string()), b.err().map(|e| e.to_string()))),
+                    }
+                    keep = Some((Sendable(rt), Sendable(pkg)));
+                }
+                Err(e) => viol::record("compile-failed", format!("stringbuf script: {}", report_text(&e))),
+            }
+        }
+        let hist: Arc<Mutex<Vec<Event>>> = Arc::new(Mutex::new(Vec::new()));
+        if let (Some(fpush), Some(fread)) = (fpush.clone(), fread.clone()) {
+            let bodies: Vec<sched::Body> = d
+                .sb_ops
+                .iter()
+                .enumerate()
+                .map(|(t, ops)| {
+                    let ops = ops.clone();
+                    let (fpush, fread, hist) = (fpush.clone(), fread.clone(), hist.clone());
+                    Box::new(move || {
+                        for (push, tok) in &ops {
+                            {
+                                let _pg = alloc::ModeGuard::new(alloc::MODE_PLAIN);
+                                sched::set_label(if *push { "stringbuf push_string" } else { "stringbuf as_string" });
+                            }
+                            let inv = sched::stamp();
+                            let (op, obs) = if *push {
+                                fpush.call(RotoString::from(format!("t{tok};")));
+                                (LOp::Push { l: 0, v: MVal::Str(format!("t{tok}")) }, Obs::Unit)
+                            } else {
+                                let r = fread.call();
+                                let s: &str = r.as_ref();
+                                let toks: Vec<MVal> = s.split(';').filter(|x| !x.is_empty()).map(|x| MVal::Str(x.to_string())).collect();
+                                (LOp::ReadAll { l: 0 }, Obs::Vals(toks))
+                            };
+                            let ret = sched::stamp();
+                            let _pg = alloc::ModeGuard::new(alloc::MODE_PLAIN);
+                            hist.lock().unwrap().push(Event { tid: t, inv, ret, op, obs });
+                        }
+                    }) as sched::Body
+                })
+                .collect();
+            out = sched::run_sim(
+                SimCfg { seed: d.sched_seed, strategy: Strategy::parse(&d.strategy).unwrap_or(Strategy::Uniform), replay: d.schedule.clone(), step_cap: 200_000, keep_trace },
+                bodies,
+            );
+            if !viol::any() {
+                let mut heap = Heap::default();
+                heap.new_list(vec![]);
+                let ev = hist.lock().unwrap().clone();
+                let lr = crate::model::linearizable(&heap, &ev, 2_000_000);
+                if !lr.gave_up && !lr.ok {
+                    let mut s = String::new();
+                    for e in &ev {
+                        s.push_str(&format!("[t{} {}..{} {:?} -> {:?}] ", e.tid, e.inv, e.ret, e.op, e.obs));
+                    }
+                    viol::record("stringbuf-not-linearizable", format!("no order of the appends and reads of the shared StringBuf explains the observed strings: {s}"));
+                }
+            }
+        }
+        {
+            let _rg = alloc::ModeGuard::new(alloc::MODE_RUN);
+            drop(fpush);
+            drop(fread);
+            drop(keep);
+        }
+        n_calls = d.sb_ops.iter().map(|o| o.len() as u64).sum();
+    } else if d.scenario == "cold-race" {
         let bodies: Vec<sched::Body> = d
             .compilers
             .iter()
@@ -812,6 +936,21 @@ pub fn shrink(d: &ConcDesc) -> Vec<ConcDesc> {
         for k in (0..d.callers[t].len()).rev() {
             let mut c = d.clone();
             c.callers[t].remove(k);
+            out.push(c);
+        }
+    }
+    if d.sb_ops.len() > 1 {
+        for t in 0..d.sb_ops.len() {
+            let mut c = d.clone();
+            c.sb_ops.remove(t);
+            c.schedule = Some(renum(t));
+            out.push(c);
+        }
+    }
+    for t in 0..d.sb_ops.len() {
+        for k in (0..d.sb_ops[t].len()).rev() {
+            let mut c = d.clone();
+            c.sb_ops[t].remove(k);
             out.push(c);
         }
     }
